@@ -8,4 +8,8 @@ for tool, arg in (('clang++-14', '--version'), ('/usr/bin/z3', '--version'), ('z
     print(tool, ':', out)
 import z3
 print('z3 python', z3.get_version_string())
+from . import lemmas
+lm = lemmas.prove_all()
+print('normalisation lemmas:', lm)
+ok = ok and all(v[0] == 'unsat' for v in lm.values())
 sys.exit(0 if ok else 1)
